@@ -539,7 +539,7 @@ class Column:
         if isinstance(p[1], dict):
             if "constraint" in p[1]:
                 if "in_statement" not in p[2]["check"][0]:
-                    statement = " ".join(p[2]["check"])
+                    statement = self.set_check_in_columm(p[2]["check"])
                 else:
                     statement = p[2]["check"][0]
                 p[0] = {
@@ -1109,7 +1109,7 @@ class BaseSQL(
 
     def extract_check_data(self, p, p_list):
         if isinstance(p_list[-1]["check"], list):
-            check = " ".join(p_list[-1]["check"])
+            check = self.set_check_in_columm(p_list[-1]["check"])
             if isinstance(check, str):
                 check = {"constraint_name": None, "statement": check}
         else:
